@@ -42,14 +42,14 @@ def run(chk):
     facts = chk.facts
     chk.explanation = (
         "Decides the shape of the two evaluators and the default table, not message texts. R08a (`??`): in Op::resolve the Ok result of lhs is returned "
-        "unchanged and rhs is evaluated only in states where the lhs result is Err. R08b (`ok, err =`): P-VAR over Variant::resolve keyed on the result "
+        "unchanged, rhs is evaluated only in states where the lhs result is Err, and then rhs's Result reaches the return place untested and unchanged. R08b (`ok, err =`): P-VAR over Variant::resolve keyed on the result "
         "of expr.resolve — on Ok: ok <- clone of the value, err <- Value::Null, result = the value; on Err: ok <- clone of self.default, err <- the "
         "error's to_string() as a Value, result = that message. R08c: the `default` stored in Variant::Infallible comes from DefaultValue::default_value of "
         "the expression's (infallible) type in Assignment::new, and type_info unions TypeDef::from(default.kind()) of the same field into ok's type. "
         "R08d: DefaultValue::default_value pairs every Kind::is_X guard with a literal of Value variant X. Control-flow errors (abort/return) are C06/C07.")
     # ---- R08a
     rid = "R08a"
-    chk.rule(rid, "`??`: Ok(lhs) returned unchanged; rhs evaluated only when the lhs result is Err", floor=2)
+    chk.rule(rid, "`??`: Ok(lhs) returned unchanged; rhs evaluated only when the lhs result is Err; then rhs's Result is the result", floor=3)
     b = chk.anchor(OP_RESOLVE, rid)
     if b is not None:
         def fld(t):
@@ -95,10 +95,30 @@ def run(chk):
         chk.instance(rid, d, ok=ok)
         if not ok:
             chk.violation(rid, b.file, OP_RESOLVE, "`??` does not return Ok(lhs) unchanged", "`a ?? b` no longer yields a's value when a succeeds", detail=d)
+        # when a failed, the outcome of `a ?? b` IS the outcome of b (value or error): b's Result reaches the return place untested and unchanged
+        from facts import uses_of
+        for bb in sorted(err_sites):
+            t = b.term(bb)
+            dl = t["dest"]["l"]
+            al = cfgq.copies_forward(b, dl)
+            tested = []
+            for x in al:
+                for kind, ubb, usi, ux in uses_of(b, x):
+                    if kind == "stmt" and ux["rv"]["k"] == "discr":
+                        tested.append(ux.get("ln"))
+                    elif kind == "call" and not (b.callee(ux).endswith("::clone")):
+                        tested.append(ux.get("ln"))
+            d = {"fn": OP_RESOLVE, "rhs_result_local": dl, "reaches_return_place": 0 in al, "inspected_or_transformed_at": tested[:3]}
+            okr = (0 in al) and not tested
+            chk.instance(rid, d, ok=okr)
+            if not okr:
+                chk.violation(rid, b.file, OP_RESOLVE, "`??` does not return b's outcome unchanged",
+                              "`a ?? b`: when a fails the result must be exactly b's result, but Op::resolve inspects or replaces b's Result before returning it "
+                              "(e.g. reporting a's error when b fails too)", detail=d, loc="%s:%s" % (b.file, t["ln"]))
 
     # ---- R08b
     rid = "R08b"
-    chk.rule(rid, "`ok, err =`: the four (outcome, target) stores and the expression result carry the defined values", floor=5)
+    chk.rule(rid, "`ok, err =`: the four (outcome, target) stores and the expression result carry the defined values; `ok` is stored before `err` in both arms", floor=7)
     b = chk.anchor(VAR_RESOLVE, rid)
     if b is not None:
         exprs = [(bb, t) for bb, t in b.calls() if (t.get("fn") or "") == "compiler::expression::Expression::resolve"]
@@ -153,6 +173,8 @@ def run(chk):
                             kinds.add("call:" + cal.rsplit("::", 1)[-1])
                 return kinds
 
+            store_blocks = {}
+
             def on_term(bb, t, st):
                 if t["k"] == "call" and b.callee(t) == TARGET_INSERT:
                     v = st.get("_%d" % inf_res)
@@ -163,6 +185,7 @@ def run(chk):
                     if not tf or tf[0] == "target":
                         return
                     stores.setdefault((out, tf[0]), set()).update(classify(op_local(t["args"][1])))
+                    store_blocks.setdefault((out, tf[0]), set()).add(bb)
 
             def on_stmt(bb, si, s, st):
                 if s["rv"]["k"] == "use" and not s["d"].get("p"):
@@ -179,6 +202,17 @@ def run(chk):
                     chk.violation(rid, b.file, VAR_RESOLVE, "%s arm stores %s into `%s`" % (key[0], sorted(got) or "nothing", key[1]),
                                   "`ok, err = e`: when e %s, `%s` must receive the %s but receives %s"
                                   % ("succeeds" if key[0] == "Ok" else "fails", key[1], want, sorted(got) or "nothing"), detail=d)
+            # sibling arms agree on the order of the two stores (it decides the outcome when the two targets overlap, `.r, .r.error = ..`)
+            for out in ("Ok", "Err"):
+                okb, errb = store_blocks.get((out, "ok"), set()), store_blocks.get((out, "err"), set())
+                d = {"outcome": out, "ok_store_blocks": sorted(okb), "err_store_blocks": sorted(errb)}
+                good = bool(okb) and bool(errb) and all(any(b.dominates(x, y) and x != y for x in okb) for y in errb)
+                chk.instance(rid, d, ok=good)
+                if not good:
+                    chk.violation(rid, b.file, VAR_RESOLVE, "%s arm: `err` is stored before `ok`" % out,
+                                  "`ok, err = e`: when e %s the store into `ok` must come before the store into `err` (as in the other arm): with overlapping "
+                                  "targets such as `.r, .r.error = ..` the order decides what is left in the event" % ("succeeds" if out == "Ok" else "fails"),
+                                  detail=d)
             # expression result: Ok arm -> the value, Err arm -> the message
             res_src = {}
             for bi, si, s in b.iter_stmts():
